@@ -172,3 +172,69 @@ Fixpoint fent (root : node) (ops : list fop) : list entry :=
     | FListen _ _ => []
     end ++ fent (out_state (frun_op root o)) r
   end.
+
+(* ================= mounted arrangements ================= *)
+
+(* a literal pattern token (what the tokens of a valid path are) *)
+Definition littok (t : bytes) : bool :=
+  match t with c :: _ => negb ((c =? dollar) || (c =? star)) && negb (c =? gt) | [] => false end.
+Definition lits (a : list bytes) : list ptok := map PLit a.
+
+(* Route is NewMux("") + the callback's calls on the new mux + Mount; [n] = number of muxes so far *)
+Fixpoint desugar_rop (r : rop) (k n : nat) {struct r} : list op * nat :=
+  match r with
+  | RHandle pat hid grp par => ([OHandle k pat hid grp par], n)
+  | RListen pat l => ([OListen k pat l], n)
+  | RRoute path body =>
+    let '(ops, n') :=
+      (fix go (b : list rop) (n0 : nat) {struct b} : list op * nat :=
+         match b with
+         | [] => ([], n0)
+         | r' :: b' => let '(o1, n1) := desugar_rop r' n n0 in
+                       let '(o2, n2) := go b' n1 in (o1 ++ o2, n2)
+         end) body (S n) in
+    (ONew [] :: ops ++ [OMount k path n], n')
+  end.
+Fixpoint desugar (ops : list op) (n : nat) : list op :=
+  match ops with
+  | [] => []
+  | o :: r =>
+    match o with
+    | ORoute m path body => let '(o1, n1) := desugar_rop (RRoute path body) m n in o1 ++ desugar r n1
+    | ONew _ => o :: desugar r (S n)
+    | _ => o :: desugar r n
+    end
+  end.
+
+(* the Handle calls of a (Route-free) op list: mux, pattern tokens, handler id, group, Parallel *)
+Record sreg := SR { sr_mux : nat; sr_pat : bytes; sr_hid : N; sr_grp : bytes; sr_par : bool }.
+Fixpoint handles (ops : list op) : list sreg :=
+  match ops with
+  | [] => []
+  | OHandle m pat hid grp par :: r => SR m pat hid grp par :: handles r
+  | _ :: r => handles r
+  end.
+
+(* where the muxes end up, computed from the op list alone (every op is assumed accepted):
+   per mux (path, top-level ancestor, literal tokens from that ancestor's root) *)
+Definition sloc := (bytes * nat * list bytes)%type.
+Definition sl_step (ss : list sloc) (o : op) : list sloc :=
+  match o with
+  | ONew path => ss ++ [(path, length ss, [])]
+  | OMount k path sub =>
+    match nth_error ss k, nth_error ss sub with
+    | Some (_, t, a), Some (sp, _, _) =>
+      let pre := a ++ split_pattern (merge_pattern path sp) in
+      map (fun x => let '(p, t', a') := x in if Nat.eqb t' sub then (p, t, pre ++ a') else x) ss
+    | _, _ => ss
+    end
+  | _ => ss
+  end.
+Definition slocs (ops : list op) : list sloc := fold_left sl_step ops [].
+(* the full pattern of a Handle call, from the root of its top-level mux, and that mux *)
+Definition full_toks (ss : list sloc) (r : sreg) : list bytes :=
+  match nth_error ss (sr_mux r) with Some (_, _, a) => a ++ split_pattern (sr_pat r) | None => [] end.
+Definition top_mux (ss : list sloc) (k : nat) : option nat :=
+  match nth_error ss k with Some (_, t, _) => Some t | None => None end.
+Definition abs_toks (ss : list sloc) (k : nat) : list bytes :=
+  match nth_error ss k with Some (_, _, a) => a | None => [] end.
